@@ -53,6 +53,16 @@ def main():
     _slot_lock = open('/tmp/sv-lock-' + slot, 'w')
     fcntl.flock(_slot_lock, fcntl.LOCK_EX)
     conf = dict(when=time.strftime('%Y-%m-%d %H:%M'), repo_head=sh(['git', '-C', '/repo', 'rev-parse', '--short', 'HEAD'])[1].strip())
+    # a re-run that skips the suite / demo keeps what an earlier full run established
+    prev = meta.get('confirmed') or {}
+    if not do_suite:
+        for k in ('suite_with_change', 'suite_passes', 'suite_failures'):
+            if k in prev:
+                conf[k] = prev[k]
+    if not do_demo:
+        for k in ('demo_with_change', 'demo_without_change'):
+            if k in prev:
+                conf[k] = prev[k]
     sh(['git', '-C', '/repo', 'worktree', 'remove', '--force', wt])
     rc, out = sh(['git', '-C', '/repo', 'worktree', 'add', '--detach', wt, 'HEAD'])
     if rc != 0:
